@@ -1058,6 +1058,17 @@ def c13(tier, seed):
         "custom_errorf": lambda: [draw(g("Custom", elem=g("Int8"), body=[draw(g("Byte"), "y", "y"), iff("y", "ge", 100, [op("errorf", text="in custom")])]), "c")],
         "cleanup_errorf": lambda: [draw(g("Byte"), "x", "x"), op("cleanup", body=[iff("x", "ge", 100, [op("errorf", text="cleanup")])]), draw(g("Bool"), "b")],
         "errorf_then_custom": lambda: [draw(g("Byte"), "x", "x"), iff("x", "ge", 100, [op("errorf", text="early")]), draw(g("Custom", elem=g("Int8"), body=[]), "c")],
+        # several cleanups, a later-registered one fails / skips / draws (and so panics when the input is exhausted) while earlier ones are pending
+        "cleanups_fatal": lambda: [op("cleanup", body=[op("ctx")]), draw(g("Byte"), "x", "x"), op("cleanup", body=[op("ctx")]),
+                                   op("cleanup", body=[iff("x", "ge", 100, [op("fatalf", site=2)])]), draw(g("Bool"), "b")],
+        "cleanups_draw": lambda: [op("cleanup", body=[op("ctx")]), draw(g("Byte"), "x", "x"), op("cleanup", body=[op("cleanupnil")]),
+                                  op("cleanup", body=[draw(g("Uint64"), "late"), draw(g("Uint64"), "later")])],
+        "cleanups_skip": lambda: [op("cleanup", body=[op("errorf", text="first registered")]), draw(g("Byte"), "x", "x"),
+                                  op("cleanup", body=[iff("x", "mod2", 0, [op("skip")])]), op("cleanup", body=[iff("x", "ge", 200, [op("panic", val="error", site=1)])])],
+        "sm_all_skip": lambda: [op("repeat", actions={"s1": [draw(g("Byte"), "q"), op("skip")], "s2": [draw(g("Bool"), "w"), draw(g("Bool"), "w2"), op("skip")]},
+                                   inv=[op("ctx")]), draw(g("Int8"), "after")],
+        "distinct_dups": lambda: [draw(g("SliceOfNDistinct", elem=IntRange(0, 1), minLen=0, maxLen=5), "d"), draw(g("MapOfN", key=g("Bool"), val=g("Bool"), minLen=1, maxLen=3), "m"),
+                                  draw(g("Int8"), "after")],
         "sm_skips": lambda: [op("setvar", var="n", val="0"),
                              op("repeat", actions={"inc": [draw(g("Bool"), "b"), op("incvar", var="n")], "skipafter": [draw(IntRange(0, 9), "r"), op("skip")],
                                                    "skipafter2": [draw(g("Byte"), "q"), draw(g("Bool"), "w"), op("skip")]}),
